@@ -306,6 +306,10 @@ def ob_mmap(di: int, si: int, li: int, mode: int, lead: int) -> bool:
         seen = []
 
         def view_memmap(filename, dtype="uint8", mode="r+", offset=0, shape=None, order="C", unlink_on_gc_collect=False):
+            if mode == "w+":
+                # numpy.memmap(mode='w+') creates / truncates the file and zero-fills it
+                need = offset + (int(np.prod(shape)) if shape != () else 1) * np.dtype(dtype).itemsize
+                fs.files[filename] = b"\x00" * need
             data = fs.files[filename]
             cnt = int(np.prod(shape)) if shape != () else 1
             seen.append(offset)
